@@ -14,7 +14,11 @@ RULE = (
     "make_children judged by the exact predicate (arity, containment, grid tiling = union is the parent and interiors "
     "disjoint hence bit-identical shared faces, only split dimensions change, equal sides to 8 ulp for the equal-size "
     "classes, centre = midpoint to 1 ulp) and the final leaves judged against the root box. subcheck 'algos': the same "
-    "predicate on every split made during generated runs of all algorithms. non-trivial = at least one split and (d >= 2 "
+    "predicate on every split made during generated runs of all algorithms. In dimension >= 2 one box in five/six is written "
+    "[[lo, hi]] * d, i.e. ONE list object for every axis. subcheck 'ndarray' (differential): the tree grown from the box handed "
+    "over as a 2-D float NumPy array / a list of 1-D arrays has, cell for cell, the boxes and centres of the tree grown from the "
+    "same box as a list of lists (an exception on the array-typed box is inconclusive). Thorough tier: subcheck 'fuzz-direct', an "
+    "atheris/libFuzzer campaign over the 'direct' generator and oracle. non-trivial = at least one split and (d >= 2 "
     "or a non-unit box or an end-point draw or an out-of-layer-order expansion); distinct = SHA-1 of the JSON case."
 )
 ASSUMPTIONS = [
